@@ -115,10 +115,25 @@ fn write(
     buf: &[u8],
 ) -> std::io::Result<usize> {
     let initial_state = state.clone();
+    let mut delivered = false;
 
     for printable in state.strip_next(buf) {
         let possible = printable.len();
-        let written = raw.write(printable)?;
+        let written = match raw.write(printable) {
+            Ok(written) => written,
+            Err(err) => {
+                // `state` has already advanced past all of `buf`; rewind it to what the caller
+                // will be told was consumed
+                let offset = offset_to(buf, printable);
+                *state = initial_state;
+                if !delivered {
+                    return Err(err);
+                }
+                // Report the earlier progress, the error will come back on the next call
+                state.strip_next(&buf[..offset]).last();
+                return Ok(offset);
+            }
+        };
         if possible != written {
             let divergence = &printable[written..];
             let offset = offset_to(buf, divergence);
@@ -127,6 +142,7 @@ fn write(
             state.strip_next(consumed).last();
             return Ok(offset);
         }
+        delivered = true;
     }
     Ok(buf.len())
 }
